@@ -174,3 +174,36 @@ def reordering_sites(fnode: ast.AST, tainted: Set[str]) -> List[ast.Call]:
             if any(isinstance(y, ast.Name) and y.id in tainted for y in ast.walk(r)):
                 out.append(n)
     return out
+
+
+def thorough_compositions(R, rule_id: str, focus: Iterable[str] = ()) -> None:
+    """Thorough tier: super()-chain resolution and keyword acceptance over every
+    mixin composition (fsa/mro.py); `focus` = method names whose provider chain
+    is recorded in the evidence."""
+    from fsa.mro import check_composition, compositions
+    from fsa.source import resolve_method
+
+    def body() -> None:
+        n = 0
+        for sel, base, mro in compositions(R.repo):
+            n += 1
+            name = '(' + ', '.join(sel + (base,)) + ')'
+            probs = check_composition(R.repo, mro)
+            chain = {}
+            for m in focus:
+                provs = []
+                after = None
+                while True:
+                    p = resolve_method(R.repo, mro, m, after=after)
+                    if p is None:
+                        break
+                    provs.append(p.cls.name)
+                    after = p.cls.qualname
+                chain[m] = provs
+            if not probs:
+                R.ok(name, 'every super() call resolves to a provider that accepts its arguments', detail={'mro': [c.split('.')[-1] for c in mro], 'providers': chain})
+            for (q, m, why) in probs:
+                R.violation(name, f'super-chain:{q}:{m}', f'in composition {name}: `super().{m}(...)` in {q.split(".")[-2]}.{q.split(".")[-1]}: {why}')
+        R.expect('compositions', n, 60, 'mixin compositions enumerated')
+
+    R.rule(rule_id, body)
